@@ -750,3 +750,25 @@ def rule_pipeline(ctx, R):
                 R.finding(fn, "frame-loop:executes-while-blocked",
                           "%s executes every frame of a read in one loop (line %d) without testing whether an earlier frame of the batch left the connection blocked: commands pipelined behind a BLPOP/BRPOP run while the client is blocked" % (fn.split("::")[-1], b.bb_line(h)), b.loc(h))
     R.floor("frame_execution_loops", n)
+
+
+# ---- R-BLK-TIMEOUT-REPLY --------------------------------------------------------------------------
+def rule_timeout_reply(ctx, R):
+    """a timed-out client is answered once: the expired list names a client once per key it
+    waited on, so the nil reply (like the state change) is sent only under a still-Blocked test
+    of the connection -- the first entry answers and un-blocks, the others find it un-blocked."""
+    b0 = ctx.prog.need(SERVER + "process_blocked_timeouts")
+    n = 0
+    for body in shared.closure_tree(ctx, b0):
+        sends = [i for i, t in body.calls() if callee(t) == "network::connection::Connection::send_frame" and not body.bbs[i]["cleanup"]]
+        if not sends:
+            continue
+        blk = blocked_test_regions(ctx, body)
+        for i in sends:
+            n += 1
+            ok = i in blk
+            R.inst(b0.fn, "timeout-reply", {"at": body.loc(i), "under_still_blocked_test": ok})
+            if not ok:
+                R.finding(b0.fn, "timeout-reply:not-under-blocked-test",
+                          "the timeout pass sends its nil reply (line %d) outside the still-Blocked test: a client that waited on N keys is listed N times and gets N replies for one command, which shifts every later reply on the connection" % body.bb_line(i), body.loc(i))
+    R.floor("timeout_replies", n)
